@@ -219,12 +219,15 @@ def strip_unique(s, a, r, b):
     return (not pre) or s.strip() == r
 
 
-def strip_padded(s, a, r, b, pattern):
+def strip_padded(s, w1, ws_pattern, w2, *tokens):
     import re
 
-    pre = (s == a + r + b and all(c in _PY_WS for c in a) and all(c in _PY_WS for c in b)
-           and re.fullmatch(pattern, r) is not None)
-    return (not pre) or s.strip() == r
+    vals = list(tokens[0::2])
+    pats = list(tokens[1::2])
+    pre = s == w1 + "".join(vals) + w2 and re.fullmatch(ws_pattern, w1) and re.fullmatch(ws_pattern, w2)
+    for v, p in zip(vals, pats):
+        pre = pre and (p is None or re.fullmatch(p, v) is not None)
+    return (not pre) or s.strip() == "".join(vals)
 
 
 def int_of_signed(c, sg, d):
@@ -277,3 +280,19 @@ def called(name):
 
 def call_arg(name, i):
     raise NotImplementedError("call_arg() is a symbolic-only builtin")
+
+
+def pos_of(d, k):
+    return list(d.keys()).index(k)
+
+
+def strip_blank(s):
+    return (not all(c in _PY_WS for c in s)) or s.strip() == ""
+
+
+def index_at(a, pattern, sep, b):
+    import re
+
+    s = a + sep + b
+    pre = re.fullmatch(pattern, a) is not None
+    return (not pre) or (s.find(sep) == len(a) and s.partition(sep) == (a, sep, b))
